@@ -159,6 +159,7 @@ CancelF(b, id) ==
 ModKind(b, id, np, nv) ==
   IF O(b, id).status # "Active" THEN "noop"
   ELSE IF np = None /\ nv = None THEN "noop"
+  ELSE IF np # None /\ ~OnGrid(b, np) THEN "noop"   \* C12: an off-grid price is never accepted
   ELSE IF np = None /\ nv < O(b, id).vol THEN "reduce"
   ELSE "replace"
 
